@@ -151,9 +151,14 @@ if MODE != "dialog":
     EXPECT = {0: "LLM says hi", 1: "LLM says hi"}
 
 
+def _user_text(t, text_id):
+    """The user text of turn t: distinct per turn, so that the taint check of a rewritten turn is not confused by the (legitimately unrewritten) text of an earlier turn in the history part of the prompts."""
+    return ORIG[text_id] if t == 0 else ORIG[text_id] + " (turn %d)" % (t + 1)
+
+
 def _check_turn(t, text_id, verdicts, reply, log, prompts):
     """Oracle for one turn (Colang 1.0)."""
-    orig = ORIG[text_id]
+    orig = _user_text(t, text_id)
     k = N
     for i in range(N):
         if verdicts[i] == 1:
@@ -217,7 +222,7 @@ def gated_v1(t0: int, a0: int, a1: int, a2: int, t1: int, b0: int, b1: int, b2: 
         tid = conc([t0, t1][t], 0, 1)
         LLM.reset(script=SCRIPTS[tid])
         LLM.log = Rec.log
-        messages = messages + [{"role": "user", "content": ORIG[tid]}]
+        messages = messages + [{"role": "user", "content": _user_text(t, tid)}]
         try:
             reply = rails.generate(APP, messages)
         except rails.Escaped as e:
@@ -225,7 +230,7 @@ def gated_v1(t0: int, a0: int, a1: int, a2: int, t1: int, b0: int, b1: int, b2: 
             break
         why = _check_turn(t, tid, Rec.verdicts[t], reply, Rec.log, LLM.prompts)
         if not rails.is_tracing():
-            info.append({"user": ORIG[tid], "verdicts": [int(x) for x in Rec.verdicts[t]], "reply": reply, "log": list(Rec.log)})
+            info.append({"user": _user_text(t, tid), "verdicts": [int(x) for x in Rec.verdicts[t]], "reply": reply, "log": list(Rec.log)})
         if why:
             why = "turn %d: %s" % (t + 1, why)
             break
